@@ -521,6 +521,8 @@ def jobs_C01(tier, seed):
     # C01-c: homogeneity degrees of the derivative DAGs (the derivative path equals the value path's degree)
     first = ['T', 'V', 'N0']
     second = [['V', 'V'], ['T', 'V'], ['N0', 'N1'], ['T', 'T'], ['N0', 'V'], ['T', 'N1']]
+    if tier == 'quick':
+        second = []   # second-order derivative DAGs need long, timeout-sensitive proofs: thorough tier
     names = ('pr', 'pcsaft', 'pcsaft_assoc', 'pets') if tier == 'quick' else [s[0] for s in systems(tier, seed) if 'saftvrq' not in s[0]]
     for name, spec, n, T, V in systems(tier, seed):
         if name not in names:
@@ -528,7 +530,7 @@ def jobs_C01(tier, seed):
         x = state(n, T, V, seed)
         for sd in first:
             jobs.append(('ext_d1/%s/%s' % (name, sd), {'job': 'ext', 'dual': 'first', 'seed': [sd], 'model': spec, 'x': x}, {'budget_s': 600}))
-        for sd in (second[:3] if tier == 'quick' else second):
+        for sd in second:
             jobs.append(('ext_d2/%s/%s' % (name, ''.join(sd)), {'job': 'ext', 'dual': 'second', 'seed': sd, 'model': spec, 'x': x}, {'budget_s': 900}))
         if tier == 'thorough':
             for sd in ('V', 'T'):
